@@ -146,6 +146,11 @@ where
     pub fn build<P: Into<PathBuf>>(&mut self, file: P) -> BuildResult {
         let file = file.into();
         self.working_dir = file.parent().unwrap().to_path_buf();
+        if self.validate_mode {
+            // The assertion results describe this build. The environment is
+            // shared with the files built before this one so start over.
+            self.environment.borrow_mut().assert_results = AssertCollector::new();
+        }
         let ptr = self.environment.borrow_mut().get_ops_for_path(&file)?;
         let eval_result = self.eval_ops(ptr, Some(file.clone()));
         match eval_result {
